@@ -30,10 +30,14 @@ def crlf : Bytes := [13, 10]
 
 /-! ### Serializer -/
 
+/-- `write_line_payload`: a CR or LF inside a simple-string / error payload is written as a space,
+    so that the payload can never end the line early. -/
+def sanitizeLine (b : Bytes) : Bytes := b.map fun x => if x = 13 ∨ x = 10 then 32 else x
+
 mutual
 def ser : Frame → Bytes
-  | .simple b => 43 :: (b ++ crlf)
-  | .error b => 45 :: (b ++ crlf)
+  | .simple b => 43 :: (sanitizeLine b ++ crlf)
+  | .error b => 45 :: (sanitizeLine b ++ crlf)
   | .int n => 58 :: (intDigits n ++ crlf)
   | .bulk b => 36 :: (natDigits b.length ++ crlf ++ (b ++ crlf))
   | .nullBulk => [36, 45, 49, 13, 10]
